@@ -196,4 +196,12 @@ def rpc_states(obs):
 
 
 def benign_notification(text):
-    return text.startswith('<notification xmlns="urn:ietf:params:xml:ns:netconf:notification:1.0"><eventTime>20')
+    """A well-formed <notification> in the RFC 5277 namespace with an eventTime - judged by an independent parser."""
+    import xml.etree.ElementTree as ET
+    NS = 'urn:ietf:params:xml:ns:netconf:notification:1.0'
+    try:
+        r = ET.fromstring(text.encode('utf-8'))
+    except Exception:
+        return False
+    et = r.find('{%s}eventTime' % NS)
+    return r.tag == '{%s}notification' % NS and et is not None and (et.text or '').startswith('20')
